@@ -91,6 +91,7 @@ const JQ_SEEDS: &[&str] = &[
     // boundary cases of the escape syntax (most of them rejected): surrogate halves in every
     // combination, short and non-hex escapes, unknown escapes
     "\"\\ud83d\\ude00 \\ud83d\\ud83d \\ude00\\ud83d \\ud800 \\udfff \\udbff\\u0041\", \"\\u00\", \"\\u12G4\", \"\\q\", \"\\uFFFF\\u0000\"",
+    "include \"\"; import \"\" as $d; import \"\" as m {search: \"\"}; include \"a\" {search: []}; module {}; m::f($d; $__loc__)",
     "1e999999, -0, 0x10, 1.e5, .5, 1__2, 99999999999999999999999999999999, 1e-99999, [.[1e1000:]], .[\"a\"]?[-1:][::], ..a, .. a, .a.[0], $__loc__.x, @nofmt \"x\"",
 ];
 
@@ -581,7 +582,7 @@ fn crash_violation(cfg: &Cfg, i: u64, how: &str) -> Violation {
 
 /// Panic-only pass over hard-fault worlds of the other simos generators.
 fn cli_pass(cfg: &Cfg, tally: &mut Tally, keys: &mut BTreeSet<String>) -> Result<Vec<Violation>, Harness> {
-    let n = cfg.n(240, 6000);
+    let n = cfg.n(240, 2400);
     let idx: Vec<u64> = (0..n as u64).collect();
     let res: Vec<Result<(Option<Violation>, Tally, String), Harness>> = crate::par::par_map(
         &idx,
@@ -669,7 +670,7 @@ fn cli_pass(cfg: &Cfg, tally: &mut Tally, keys: &mut BTreeSet<String>) -> Result
 
 pub fn check(cfg: &Cfg) -> Result<i32, Harness> {
     let started = std::time::Instant::now();
-    let n = cfg.n(120_000, 6_000_000) as u64;
+    let n = cfg.n(120_000, 2_400_000) as u64;
     let results = crate::par::proc_map(cfg, ID, n, 45)?;
     let mut tally = Tally::default();
     let mut keys = BTreeSet::new();
